@@ -609,7 +609,7 @@ pub fn run(cfg: &Cfg) -> Report {
         stats.label("sanitizers", "memcheck");
         crate::sanitize::miri_pass(cfg, 8, 3, &mut stats);
     }
-    for (_, p) in planned.iter().take(400).filter(|(_, p)| p.group == "signed-tamper").take(3) {
+    for (_, p) in planned.iter().filter(|(_, p)| p.group == "signed-tamper").take(2).chain(planned.iter().filter(|(_, p)| p.group == "byte-level").take(1)).chain(planned.iter().take(3)) {
         stats.sample(json!({"label": p.label, "case": trim_case(&p.case)}));
     }
     Report {
